@@ -51,7 +51,7 @@ def cand_metainfo(c):
     else:
         info['files'] = []
         for rel in c['order']:
-            e = {'length': len(c['data'][rel]), 'path': list(rel)}
+            e = {'length': len(c['data'][rel]), 'path': ['/'.join(rel)] if c.get('joined') else list(rel)}
             if c.get('extra'):
                 e['md5sum'] = 'c' * 32
                 e['attr'] = 'x'
@@ -76,7 +76,7 @@ def gen_scenario(rng, si):
     bounds = rng.choice([(None, None)] * 4 + [(None, K16), (2 * K16, None), (2 * K16, 4 * K16)])
     cands = []
     kinds = ['faithful', 'faithful', 'renamed', 'fileset', 'size', 'piece', 'piece', 'piece', 'plen-out-of-bounds', 'order', 'extra', 'unreadable', 'bdecode', 'metainfo',
-             'not-a-torrent', 'piece-unsampled']
+             'not-a-torrent', 'piece-unsampled', 'path-joined']
     for ci in range(rng.randint(1, 6)):
         kind = rng.choice(kinds)
         c = {'kind': kind, 'name': name, 'single': single, 'data': dict(data), 'order': list(order), 'L': rng.choice([K16, K16, 2 * K16]), 'id': ci}
@@ -123,6 +123,9 @@ def gen_scenario(rng, si):
             rng.shuffle(c['order'])
         elif kind == 'extra':
             c['extra'] = True
+        elif kind == 'path-joined':
+            # the same files, but nested paths are stored as ONE component with an embedded separator
+            c['joined'] = True
         c['pieces'] = pieces_of(c['name'], single, c['order'], c['data'], c['L'])
         cands.append(c)
     shape = rng.choice(['file', 'dir', 'tree', 'several'])
@@ -207,14 +210,19 @@ def lay_out(root, sc, rng):
     return arg, by_path
 
 
+def comps(c, rel):
+    """path components as stored in the candidate's metainfo"""
+    return ('/'.join(rel),) if c.get('joined') and rel else tuple(rel)
+
+
 def is_faithful(sc, c, local):
     return c['kind'] not in ('unreadable', 'bdecode', 'metainfo', 'not-a-torrent') and c['name'] == sc['name'] and \
-        {r: len(b) for r, b in c['data'].items()} == {r: len(b) for r, b in local.items()} and c['data'] == local
+        {comps(c, r): len(b) for r, b in c['data'].items()} == {r: len(b) for r, b in local.items()} and c['data'] == local
 
 
 def sampled_ok(sc, c, local):
     """C18's acceptance condition stated from the definitions (independent of torf's geometry code)."""
-    if c['name'] != sc['name'] or {r: len(b) for r, b in c['data'].items()} != {r: len(b) for r, b in local.items()}:
+    if c['name'] != sc['name'] or {comps(c, r): len(b) for r, b in c['data'].items()} != {r: len(b) for r, b in local.items()}:
         return False, 'files'
     lo = sc['bounds'][0] or 16384
     hi = sc['bounds'][1] or 16 * 1024 * 1024
@@ -348,12 +356,13 @@ def run_one(root, sc, rng, ck, m, model_ok):
         strings = set()
         names = {}
 
-        def path_str(name, rel):
-            return name if not rel else name + '/' + '/'.join(rel)
+        def path_str(name, rel, c=None):
+            # the identity of a listed file: the name and the path components as stored (a component may hold a separator)
+            return repr((name,) + (comps(c, rel) if c is not None else tuple(rel)))
         for c in sc['cands'] + [{'name': sc['name'], 'data': local}]:
             names.setdefault(c['name'], len(names))
             for r in c['data']:
-                strings.add(path_str(c['name'], r))
+                strings.add(path_str(c['name'], r, c))
         ids = {s: i for i, s in enumerate(sorted(strings))}
         disk = [[ids[path_str(sc['name'], r)], b] for r, b in local.items()]
         tf = [[ids[path_str(sc['name'], r)], len(sc['data'][r])] for r in sc['order']]
@@ -363,8 +372,8 @@ def run_one(root, sc, rng, ck, m, model_ok):
                 mitems.append(it)
             else:
                 c = it[1]
-                same_files = c['name'] == sc['name'] and sorted((r, len(b)) for r, b in c['data'].items()) == sorted((r, len(b)) for r, b in sc['data'].items())
-                mitems.append(['cand', [names[c['name']], [[ids[path_str(c['name'], r)], len(c['data'][r])] for r in c['order']], c['L'],
+                same_files = c['name'] == sc['name'] and sorted((comps(c, r), len(b)) for r, b in c['data'].items()) == sorted((r, len(b)) for r, b in sc['data'].items())
+                mitems.append(['cand', [names[c['name']], [[ids[path_str(c['name'], r, c)], len(c['data'][r])] for r in c['order']], c['L'],
                                         c['pieces'] if same_files else []]])
         lo = sc['bounds'][0] or 16384
         hi = sc['bounds'][1] or 16 * 1024 * 1024
@@ -396,7 +405,7 @@ def compare(ck, rec, out):
     if res == ('ok', True):
         info = after['info']
         rid = {v: k for k, v in ids.items()}
-        m_files = [rid[int(f[0])].split('/', 1)[1] if '/' in rid[int(f[0])] else '' for f in files]
+        m_files = ['/'.join(eval(rid[int(f[0])])[1:]) for f in files]  # noqa
         i_files = ['/'.join(f['path']) for f in info['files']] if 'files' in info else ['']
         m_pieces = b''.join(hashlib.sha1(atom_bytes(p)).digest() for p in pieces)
         if (m_files, int(plen), m_pieces) != (i_files, info['piece length'], info['pieces']):
